@@ -2,6 +2,7 @@ package main
 
 import (
 	"bytes"
+	"context"
 	"encoding/binary"
 	"fmt"
 	"strings"
@@ -130,6 +131,17 @@ func (a *apiRunner) step(op string, resetBytes []byte, checksum, expand bool) (o
 			return "ADecode", obsErr(err)
 		}
 		return "ADecode", "OFit " + coqFit(fit)
+	case "decodecancelled": // DecodeWithContext under a context that is already done
+		ctx, cancel := context.WithCancel(context.Background())
+		cancel()
+		fit, err := a.dec.DecodeWithContext(ctx)
+		if err != nil {
+			if fit != nil {
+				return "ADecodeCancelled", "OPanicR" // an error together with a FIT value: never
+			}
+			return "ADecodeCancelled", obsErr(err)
+		}
+		return "ADecodeCancelled", "OFit " + coqFit(fit)
 	case "next":
 		return "ANext", "OBool " + coqBool(a.dec.Next())
 	case "peekheader":
@@ -224,7 +236,9 @@ func c07(args []string) {
 		}
 		failed := false
 		for j := range chain {
-			switch r.intn(7) {
+			switch r.intn(8) {
+			case 7:
+				do("decodecancelled", nil)
 			case 0:
 				do("discard", nil)
 			case 1:
@@ -245,7 +259,7 @@ func c07(args []string) {
 			if strings.HasPrefix(obs[len(obs)-1], "OErrR") || strings.HasPrefix(obs[len(obs)-1], "OPanic") {
 				failed = true
 				// sticky: the error is returned again by every entry point
-				do(r.pickStr("decode", "discard", "peekheader", "peekfileid", "next", "integrity"), nil)
+				do(r.pickStr("decode", "discard", "peekheader", "peekfileid", "next", "integrity", "decodecancelled"), nil)
 				_ = j
 				break
 			}
